@@ -471,6 +471,7 @@ package middleware
 //@ ensures [C02:nilprincipal] calls(AU) == 1 && ret(AU,0,0) && ret(AU,0,2) == nil && ret(AU,0,1) == nil ==> calls(AA) == 1 && (!ret(AA,0,0) ==> result2 != nil && calls(AZ) == 0)
 //@ ensures [C02:authorizer] calls(AZ) <= 1 && (calls(AZ) == 1 ==> recv(AZ,0) == old(route.Authorizer) && arg(AZ,0,0) == request && arg(AZ,0,1) == ret(AU,0,1) && ret(AU,0,0) && ret(AU,0,2) == nil)
 //@ ensures [C02:denied] calls(AZ) == 1 && ret(AZ,0,0) != nil ==> result0 == nil && result1 == nil && result2 != nil
+//@ ensures [C02:admits] calls(AU) == 1 && ret(AU,0,0) && ret(AU,0,2) == nil && ret(AU,0,1) != nil && (old(route.Authorizer) == nil || (calls(AZ) == 1 && ret(AZ,0,0) == nil)) ==> result2 == nil
 //@ ensures [C02:admitted] result2 == nil && calls(AU) == 1 ==> result0 == ret(AU,0,1) && result1 != nil && ret(AU,0,0) && ret(AU,0,2) == nil && (old(route.Authorizer) != nil ==> calls(AZ) == 1 && ret(AZ,0,0) == nil) && calls(AS) == 1
 
 // the security middleware: next (binding + handler) runs only if the route needs no
@@ -873,7 +874,12 @@ package middleware
 //@ assume after IF calls(IMP) == 1 && ret(IMP,0,0) ==> implements(ret(IF,0,0), "encoding.TextUnmarshaler")
 //@ assigns \opaque
 //@ func (*untypedParamBinder).readFormattedSliceFieldValue
+//@ watch TU = call (*untypedParamBinder).tryUnmarshaler
+//@ watch SP = call github.com/go-openapi/swag.SplitByFormat
 //@ requires p != nil && p.parameter != nil && rvValid(target) && textUnmarshalType != nil
+//@ ensures [C03:custom] calls(TU) == 1 && arg(TU,0,1) == target && arg(TU,0,3) == data && (ret(TU,0,1) != nil ==> result0 == nil && result1 && result2 == ret(TU,0,1) && calls(SP) == 0) && (ret(TU,0,1) == nil && ret(TU,0,0) ==> result0 == nil && result1 && result2 == nil && calls(SP) == 0)
+//@ ensures [C03:split] ret(TU,0,1) == nil && !ret(TU,0,0) ==> calls(SP) == 1 && arg(SP,0,0) == data && arg(SP,0,1) == old(p.parameter.CollectionFormat) && result0 == ret(SP,0,0) && !result1 && result2 == nil
+//@ stable comp:F!github.com/go-openapi/spec.SimpleSchema!CollectionFormat, comp:F!github.com/go-openapi/spec.SimpleSchema!Default
 //@ assigns \opaque
 
 // setSliceFieldValue: every item is bound by setFieldValue into a new slice of the target's element type,
@@ -933,6 +939,7 @@ package middleware
 //@ watch VAL = invoke (github.com/go-openapi/validate.EntityValidator).Validate tag mappos-1
 //@ watch HE = call (*github.com/go-openapi/validate.Result).HasErrors tag mappos-1
 //@ watch CVE = call github.com/go-openapi/errors.CompositeValidationError
+//@ watch IV = call (reflect.Value).IsValid tag mappos-1
 //@ requires o != nil && request != nil && request.URL != nil && o.debugLogf != nil && textUnmarshalType != nil && declsOK()
 //@ requires forall k string :: in(k, o.Parameters) ==> in(k, o.paramBinders) && mapat(o.paramBinders, k) != nil && mapat(o.paramBinders, k).parameter != nil && mapat(o.paramBinders, k).formats != nil
 //@ requires forall k string :: in(k, o.Parameters) && mapat(o.paramBinders, k).parameter.In != "body" ==> validSimple(mapat(o.paramBinders, k).parameter.Type, mapat(o.paramBinders, k).parameter.Items)
@@ -947,9 +954,12 @@ package middleware
 //@ ensures [C03:validated] forall i int :: called(BB,i) && ret(BB,i,0) == nil && mapat(o.paramBinders, inloop(0, mapkey(i))).validator != nil ==> called(VAL,i)
 //@ ensures [C03:422] (exists i int :: failed(i)) ==> result != nil && calls(CVE) == 1
 //@ ensures [C03:ok] result != nil ==> calls(CVE) == 1 && len(arg(CVE,0,0)) > 0
+//@ ensures [C03:only422] result != nil ==> exists i int :: failed(i) || (called(IV,i) && !ret(IV,i,0))
 //@ loop 0 invariant calls(IND) >= 1 && calls(CVE) == 0 && 0 <= mappos && mappos <= mapcard && (rvKind(val) == 21 || rvKind(val) == 25) && (isMap <==> rvKind(val) == 21)
 //@ loop 0 invariant forall i int :: called(BB,i) ==> 0 <= i && i < mappos
 //@ loop 0 invariant forall i int :: called(VAL,i) ==> 0 <= i && i < mappos && called(BB,i) && ret(BB,i,0) == nil && recv(VAL,i) == mapat(o.paramBinders, mapkey(i)).validator
 //@ loop 0 invariant forall i int :: called(HE,i) ==> 0 <= i && i < mappos
 //@ loop 0 invariant forall i int :: called(BB,i) && ret(BB,i,0) == nil && mapat(o.paramBinders, mapkey(i)).validator != nil ==> called(VAL,i)
 //@ loop 0 invariant (exists i int :: failed(i)) ==> len(result) > 0
+//@ loop 0 invariant len(result) > 0 ==> exists i int @try(mappos-1) :: failed(i) || (called(IV,i) && !ret(IV,i,0))
+//@ loop 0 invariant forall i int :: called(IV,i) ==> 0 <= i && i < mappos
